@@ -270,7 +270,7 @@ fn run_check(ctx: &Ctx) -> i32 {
             if let Some(target) = hv::fuzzdecode::target_for(&ctx.id) {
                 let (runs, max_len) = match target {
                     "fz_c04" => (1_000_000, 400),
-                    "fz_c01" => (60_000, 160),
+                    "fz_c01" => (30_000, 128),
                     _ => (25_000, 96),
                 };
                 fuzz_stage(ctx, &mut out, target, runs, ctx.workers, max_len);
